@@ -192,8 +192,8 @@ fn embedded(v: u64) -> Option<Violation> {
     bytes.clear();
     aml::Package::new(vec![&v, &(v as usize)]).to_aml_bytes(&mut bytes);
     // 12 pkglen count e1 e2
-    let tail = &bytes[bytes.len() - 2 * n..];
-    if tail[..n] != exp[..n] || tail[n..] != exp[..n] {
+    let tail = &bytes[bytes.len().saturating_sub(2 * n)..];
+    if tail.len() != 2 * n || tail[..n] != exp[..n] || tail[n..] != exp[..n] {
         return Some(Violation::new("C08", "integer", "int-encoding", "embedded:Package".into(), format!("value={:#x} got={:02x?}", v, bytes)));
     }
     // the same two elements added one by one: the integers are written into the builder, which is a
@@ -203,7 +203,7 @@ fn embedded(v: u64) -> Option<Violation> {
     pb.add_element(&v);
     pb.add_element(&(v as usize));
     pb.to_aml_bytes(&mut bytes);
-    let tail = &bytes[bytes.len() - 2 * n..];
+    let tail = &bytes[bytes.len().saturating_sub(2 * n)..];
     if bytes.len() < 3 + 2 * n || tail[..n] != exp[..n] || tail[n..] != exp[..n] {
         return Some(Violation::new("C08", "integer", "int-encoding", "embedded:PackageBuilder".into(), format!("value={:#x} got={:02x?}", v, bytes)));
     }
@@ -217,7 +217,7 @@ fn embedded(v: u64) -> Option<Violation> {
     }
     bytes.clear();
     aml::OpRegion::new("REGN".into(), aml::OpRegionSpace::SystemMemory, &v, &(v as usize)).to_aml_bytes(&mut bytes);
-    let tail = &bytes[7..];
+    let tail = bytes.get(7..).unwrap_or(&[]);
     if tail.len() != 2 * n || tail[..n] != exp[..n] || tail[n..] != exp[..n] {
         return Some(Violation::new("C08", "integer", "int-encoding", "embedded:OpRegion".into(), format!("value={:#x} got={:02x?}", v, bytes)));
     }
